@@ -961,6 +961,9 @@ func (sm *Subscriptions) dispose() {
 			closeSafe(binding.ch)
 		}
 	}
+	for _, bind := range sm.whenQuery {
+		closeSafe(bind.ch)
+	}
 	for _, bind := range sm.whenQueueEnds {
 		closeSafe(bind.ch)
 	}
